@@ -160,8 +160,9 @@ pub fn complete_path(word: &str, for_dir: bool) -> Vec<Completion> {
                     };
                     let mut name = join(&dir_shown, &_path);
                     if path_sep.is_empty() {
-                        if is_env && !use_lookup_dir {
-                            // keep `$VAR/` as typed, escape the entry only
+                        if expands && !use_lookup_dir {
+                            // keep `$VAR/` or `~/` as typed, escape the
+                            // entry only
                             name = join(&dir_shown, &tools::escape_path(&_path));
                         } else {
                             name = tools::escape_path(&name);
